@@ -1,6 +1,7 @@
 package main
 
 import (
+	"os"
 	"bufio"
 	"fmt"
 	"io"
@@ -30,6 +31,15 @@ type Solver struct {
 	Seconds  float64
 	log      io.Writer
 	pending  []string // axioms to assert at base level
+	lastQuery string
+	keepHist  bool
+	hist      []string
+	slowN     int
+	base      []string
+	depth     int
+	replaying bool
+	Retries   int
+	RetryWins int
 }
 
 var builtinOps = map[string]bool{
@@ -43,7 +53,7 @@ var builtinOps = map[string]bool{
 }
 
 func NewSolver(kind string, timeoutMs int) (*Solver, error) {
-	s := &Solver{kind: kind, timeout: timeoutMs}
+	s := &Solver{kind: kind, timeout: timeoutMs, keepHist: os.Getenv("VERIF_SLOWLOG") != ""}
 	if err := s.start(); err != nil {
 		return nil, err
 	}
@@ -113,6 +123,24 @@ func (s *Solver) Close() {
 }
 
 func (s *Solver) send(line string) {
+	switch {
+	case line == "(reset)":
+		s.base = s.base[:0]
+		s.depth = 0
+	case strings.HasPrefix(line, "(push"):
+		s.depth++
+	case strings.HasPrefix(line, "(pop"):
+		s.depth--
+	case s.depth == 0 && !s.replaying && !strings.HasPrefix(line, "(echo") && !strings.HasPrefix(line, "(check-sat") && !strings.HasPrefix(line, "(get-value") && !strings.HasPrefix(line, "(set-option :timeout"):
+		s.base = append(s.base, line)
+	}
+	if s.keepHist {
+		if line == "(reset)" {
+			s.hist = s.hist[:0]
+		} else if !strings.HasPrefix(line, "(echo") {
+			s.hist = append(s.hist, line)
+		}
+	}
 	if s.log != nil {
 		fmt.Fprintln(s.log, line)
 	}
@@ -259,11 +287,21 @@ func (s *Solver) classify(lines []string) string {
 	return res
 }
 
-// Check asks whether the current assertions plus extra are satisfiable.
+// Check asks whether the current assertions plus extra are satisfiable. The incremental core of z3 is
+// tried first under a short timeout; if it gives up, the same problem is re-asked from scratch (reset +
+// replay of the base assertions), where z3's full preprocessing pipeline applies.
 func (s *Solver) Check(extra *Term) string {
 	t0 := time.Now()
 	if extra != nil {
 		s.prepare(extra)
+		s.lastQuery = extra.SMT()
+	}
+	quick := s.timeout
+	if s.kind != "cvc5" && quick > 1500 {
+		quick = 1500
+		s.send(fmt.Sprintf("(set-option :timeout %d)", quick))
+	}
+	if extra != nil {
 		s.send("(push 1)")
 		s.send("(assert " + extra.SMT() + ")")
 	}
@@ -272,13 +310,53 @@ func (s *Solver) Check(extra *Term) string {
 		s.send("(pop 1)")
 	}
 	r := s.classify(s.sync())
+	if r != "sat" && r != "unsat" && s.kind != "cvc5" {
+		r = s.freshCheck(extra)
+	}
 	s.account(r, t0)
+	return r
+}
+
+// freshCheck: reset, replay the base-level script, ask once with the full timeout; leaves the solver at base level.
+func (s *Solver) freshCheck(extra *Term) string {
+	s.Retries++
+	base := append([]string{}, s.base...)
+	s.replaying = true
+	s.send("(reset)")
+	s.send(fmt.Sprintf("(set-option :timeout %d)", s.timeout))
+	for _, l := range base {
+		s.send(l)
+	}
+	s.replaying = false
+	s.base = base
+	if extra != nil {
+		s.send("(push 1)")
+		s.send("(assert " + extra.SMT() + ")")
+	}
+	s.send("(check-sat)")
+	if extra != nil {
+		s.send("(pop 1)")
+	}
+	r := s.classify(s.sync())
+	if r == "sat" || r == "unsat" {
+		s.RetryWins++
+	}
 	return r
 }
 
 func (s *Solver) account(r string, t0 time.Time) {
 	s.Queries++
 	s.Seconds += time.Since(t0).Seconds()
+	if p := os.Getenv("VERIF_SLOWLOG"); p != "" && time.Since(t0).Seconds() > 2 {
+		if f, err := os.OpenFile(p, os.O_APPEND|os.O_CREATE|os.O_WRONLY, 0o644); err == nil {
+			fmt.Fprintf(f, "%.1fs %s\n%s\n\n", time.Since(t0).Seconds(), r, s.lastQuery)
+			f.Close()
+		}
+		s.slowN++
+		if s.slowN <= 2 && len(s.hist) > 0 {
+			os.WriteFile(fmt.Sprintf("%s.%d.%d.smt2", p, os.Getpid(), time.Now().UnixNano()%100000), []byte(strings.Join(s.hist, "\n")+"\n"), 0o644)
+		}
+	}
 	switch r {
 	case "sat":
 		s.Sat++
@@ -298,12 +376,35 @@ func (s *Solver) CheckModel(extra *Term, want []*Term) (string, map[string]strin
 	for _, w := range want {
 		s.prepare(w)
 	}
-	s.send("(push 1)")
-	if extra != nil {
-		s.send("(assert " + extra.SMT() + ")")
+	attempt := func() string {
+		s.send("(push 1)")
+		if extra != nil {
+			s.send("(assert " + extra.SMT() + ")")
+		}
+		s.send("(check-sat)")
+		return s.classify(s.sync())
 	}
-	s.send("(check-sat)")
-	r := s.classify(s.sync())
+	if s.kind != "cvc5" {
+		s.send(fmt.Sprintf("(set-option :timeout %d)", s.timeout))
+	}
+	r := attempt()
+	if r != "sat" && r != "unsat" && s.kind != "cvc5" {
+		s.send("(pop 1)")
+		s.Retries++
+		base := append([]string{}, s.base...)
+		s.replaying = true
+		s.send("(reset)")
+		s.send(fmt.Sprintf("(set-option :timeout %d)", s.timeout))
+		for _, l := range base {
+			s.send(l)
+		}
+		s.replaying = false
+		s.base = base
+		r = attempt()
+		if r == "sat" || r == "unsat" {
+			s.RetryWins++
+		}
+	}
 	s.account(r, t0)
 	var vals map[string]string
 	if r == "sat" && len(want) > 0 {
@@ -423,7 +524,7 @@ func parseSexp(txt string) *sexp {
 }
 
 func (s *Solver) Stats() map[string]any {
-	return map[string]any{"queries": s.Queries, "sat": s.Sat, "unsat": s.Unsat, "unknown": s.Unknown, "errors": s.Errors, "solver_s": s.Seconds}
+	return map[string]any{"queries": s.Queries, "sat": s.Sat, "unsat": s.Unsat, "unknown": s.Unknown, "errors": s.Errors, "solver_s": s.Seconds, "retries": s.Retries, "retry_wins": s.RetryWins}
 }
 
 // instance axioms: added once per application term of the given UF
